@@ -75,6 +75,13 @@ MISSED = {
     "C17_i": "pipeline payloads were lists -> tuple-valued payloads (incl. the empty tuple) through 0..4 stages",
     "C19_i": "the per-antenna constraint was gradient-checked with uniform_power on [B,A,T] only -> power_budget on [B,A,T] and [B,A,H,W]",
     "C20_i": "constraint batches had members of similar strength -> a planted weak (1e-3) and strong (1e3) member",
+    "C07_j": "add_noise_for_snr was only called with its default dim -> dims None, 0, 1, -1, (0,), (1,), (0,1) on a matrix whose rows and columns have different powers (same-seed relation per slice)",
+    "C09_j": "the BCH links only used hard decoders -> BP and min-sum behind soft demodulation on BCH(15,7) / BCH(15,5), whose check rows of equal weight are not contiguous",
+    "C10_j": "generated LDPC matrices had no redundant checks -> the same codes with a repeated check and a sum of two checks inserted in the middle of H",
+    "C11_j": "SC-vs-textbook words were decoded one per call -> the same words in one batch together with a strong clean codeword: every row must get the decisions it gets alone",
+    "C16_j": "the EVM metric (a file of this property) was not exercised -> streaming EVM over generated splits and orders, with error-free batches anywhere, against the closed form; reset",
+    "C19_j": "images were square and the feedback MODEL class was not built -> non-square admissible images for every architecture and DeepJSCCFeedbackModel as an architecture of its own",
+    "C20_j": "constraint members were small -> members of 2 x 16384 samples with very different clipping effort; Hypothesis 'flaky' errors are reported as non-repeatable answers",
 }
 for tag in sys.argv[1:]:
     pid = tag.split("_")[0]
